@@ -77,6 +77,16 @@ J_RegistrySync == Judge("RegistrySync", RegistrySync)
 J_TourJobsSync == Judge("TourJobsSync", TourJobsSync)
 J_MultiWhole == Judge("MultiWhole", MultiWhole)
 J_ParentUnchanged == Judge("ParentUnchanged", ParentUnchanged)
+\* hook H2 (insertion observer): the same comparison right after EVERY SINGLE INSERTION made while this state was built
+\* (construction and recreate steps; E.ins counts the insertions after which some cached line differed from recomputation).
+\* Vectors = activity schedules, latest arrivals, waiting, load profiles, reload intervals (what feasibility is decided on);
+\* tour scalars = per-tour counters / sets / sums; aggregates = per-solution values.
+VectorsFreshAfterEveryInsertion == E.ins.routeStale = 0
+TourScalarsFreshAfterEveryInsertion == E.ins.scalarStale = 0
+AggregatesFreshAfterEveryInsertion == E.ins.solStale = 0
+J_VectorsFreshAfterEveryInsertion == Judge("VectorsFreshAfterEveryInsertion", VectorsFreshAfterEveryInsertion)
+J_TourScalarsFreshAfterEveryInsertion == Judge("TourScalarsFreshAfterEveryInsertion", TourScalarsFreshAfterEveryInsertion)
+J_AggregatesFreshAfterEveryInsertion == Judge("AggregatesFreshAfterEveryInsertion", AggregatesFreshAfterEveryInsertion)
 J_CacheFresh == Judge("CacheFresh", CacheFresh)
 J_FitnessFunctionOfTours == Judge("FitnessFunctionOfTours", FitnessFunctionOfTours)
 \* C04 "what is assigned satisfies all hard constraints" (VrpModel!Feasible, conjunct by conjunct)
